@@ -10,7 +10,12 @@
 package main
 
 import (
+	"bufio"
+	"encoding/json"
 	"fmt"
+	"os"
+	"os/exec"
+	"strconv"
 	"strings"
 	"sync"
 
@@ -34,7 +39,7 @@ func main() {
 		"a contribution whose Challenge field was emptied is the same contribution (Verify recomputes the field by design); the check requires that after acceptance it re-serializes to the genuine image",
 		"the harness-side layout parser of the serialized images is validated against the real encoder (must consume exactly the WriteTo image)")
 	o := c18k.Opts{Ns: []int{2, 4, 8}, Ks: []int{0, 1, 2}, SeqLen: 3, PairSlot: 16}
-	curves := []string{"bn254", "bls12-377"}
+	curves := []string{"bn254", "bls12-377"} // quick: full passes on two curves; element edits on the other five (below)
 	if !c.Quick() {
 		curves = c18k.Curves()
 		o.Pairs = true
@@ -78,6 +83,17 @@ func main() {
 		}
 		passes = append(passes, pass{cu, oo})
 	}
+	if c.Quick() && c.Only == "" {
+		// the other five curves: the element-edit part on the smallest layout (per-curve generated code)
+		for _, cu := range c18k.Curves() {
+			if cu == "bn254" || cu == "bls12-377" {
+				continue
+			}
+			oo := o
+			oo.Pairs, oo.Sub, oo.Ns, oo.Ks = false, "E", []int{2}, []int{0, 1}
+			passes = append(passes, pass{cu, oo})
+		}
+	}
 	if !c.Quick() {
 		// extras after every curve had its standard pass: longer sequences, pairs of departures
 		for _, cu := range curves {
@@ -95,25 +111,87 @@ func main() {
 			}
 		}
 	}
-	// the standard passes of all curves run side by side (the shared-object enumeration of a
-	// phase is sequential by nature), then the extras
-	run := func(ps []pass) {
-		var wg sync.WaitGroup
-		for _, p := range ps {
-			k, ok := c18k.Get(p.curve)
-			if !ok {
-				c.Fatal("no kit for curve %s", p.curve)
+	// Every pass runs in a worker subprocess under an address-space limit: gnark-crypto's decoders
+	// allocate whatever a length prefix claims, so a (changed) reader that gets past an altered
+	// element can ask for hundreds of GB; a worker that dies is reported as a violation of its
+	// pass (on the unchanged tree no edit of the alphabet makes a reader crash) and the other passes
+	// go on.
+	if unit, _, ok := vh.WorkerArgs(); ok {
+		i, err := strconv.Atoi(unit)
+		if err != nil || i < 0 || i >= len(passes) {
+			c.Fatal("bad pass index %q", unit)
+		}
+		k, ok := c18k.Get(passes[i].curve)
+		if !ok {
+			c.Fatal("no kit for curve %s", passes[i].curve)
+		}
+		k.Run(c, passes[i].o)
+		c.WorkerDone()
+	}
+	exe, _ := os.Executable()
+	runPass := func(i int) {
+		p := passes[i]
+		desc := fmt.Sprintf("%s:N=%v:k=%v:len=%d:pairs=%v:sub=%s", p.curve, p.o.Ns, p.o.Ks, p.o.SeqLen, p.o.Pairs, p.o.Sub)
+		args := []string{"-tier", c.Tier}
+		if c.Only != "" {
+			args = append(args, "-only", c.Only)
+		}
+		cmd := exec.Command("bash", "-c", fmt.Sprintf("ulimit -v %d; exec %q %s", 24<<20, exe, strings.Join(args, " ")))
+		cmd.Env = append(os.Environ(), "VERIF_WORKER_UNIT="+strconv.Itoa(i), fmt.Sprintf("VERIF_DEADLINE_UNIX=%d", c.Deadline.Unix()))
+		var stderr strings.Builder
+		cmd.Stderr = &stderr
+		out, err := cmd.StdoutPipe()
+		if err != nil {
+			c.Fatal("pipe: %v", err)
+		}
+		if err := cmd.Start(); err != nil {
+			c.Fatal("start pass worker: %v", err)
+		}
+		sc := bufio.NewScanner(out)
+		sc.Buffer(make([]byte, 1<<20), 1<<28)
+		done := false
+		for sc.Scan() {
+			line := sc.Text()
+			if strings.HasPrefix(line, "DONE ") {
+				var st vh.State
+				if err := json.Unmarshal([]byte(line[5:]), &st); err != nil {
+					c.Fatal("pass state: %v", err)
+				}
+				c.Merge(st)
+				done = true
+			} else if strings.HasPrefix(line, "HARNESS-ERROR") {
+				fmt.Println(line)
+				os.Exit(3)
 			}
+		}
+		cmd.Wait()
+		if !done {
+			e := stderr.String()
+			c.Outcome("pass:worker-died")
+			c.Violation("c18:"+desc+":process-crash", map[string]any{"pass": desc, "first_line": firstLineOf(e), "frames": vh.FirstFrames(e, 8),
+				"note": "the process running this pass died (fatal error / out of memory) while reading or verifying an offered contribution; on the unchanged tree every edit of the alphabet is answered with an error"})
+		}
+	}
+	run := func(lo, hi int) {
+		var wg sync.WaitGroup
+		for i := lo; i < hi; i++ {
 			if c.Expired() {
-				c.Cap(fmt.Sprintf("deadline before pass %s %+v", p.curve, p.o))
+				c.Cap(fmt.Sprintf("deadline before pass %s %+v", passes[i].curve, passes[i].o))
 				continue
 			}
 			wg.Add(1)
-			go func() { defer wg.Done(); k.Run(c, p.o) }()
+			go func(i int) { defer wg.Done(); runPass(i) }(i)
 		}
 		wg.Wait()
 	}
-	run(passes[:len(curves)])
-	run(passes[len(curves):])
+	run(0, len(curves))
+	run(len(curves), len(passes))
 	c.Finish()
+}
+
+func firstLineOf(s string) string {
+	if i := strings.IndexByte(s, '\n'); i >= 0 {
+		return s[:i]
+	}
+	return s
 }
